@@ -16,9 +16,9 @@ def main():
     a = sys.argv[1:]
     log, name, code = a[0], a[1], int(a[2])
     rest = a[3:]
-    snaps, lss, conns = [], [], []
-    while rest and rest[0] in ("--snap", "--ls", "--connect"):
-        {"--snap": snaps, "--ls": lss, "--connect": conns}[rest[0]].append(rest[1])
+    snaps, lss, conns, outs, errs = [], [], [], [], []
+    while rest and rest[0] in ("--snap", "--ls", "--connect", "--out", "--err"):
+        {"--snap": snaps, "--ls": lss, "--connect": conns, "--out": outs, "--err": errs}[rest[0]].append(rest[1])
         rest = rest[2:]
     if rest and rest[0] == "--":
         rest = rest[1:]
@@ -45,7 +45,7 @@ def main():
             files[s] = {"sha256": hashlib.sha256(data).hexdigest(), "len": len(data),
                         "mode": st.st_mode & 0o7777, "uid": st.st_uid, "gid": st.st_gid,
                         "text": data.decode(errors="replace") if len(data) < 20000 else None}
-        except FileNotFoundError:
+        except (FileNotFoundError, IsADirectoryError, PermissionError):
             files[s] = None
     listings = {}
     for d in lss:
@@ -78,6 +78,13 @@ def main():
     with open(log, "a") as f:
         fcntl.flock(f, fcntl.LOCK_EX)
         f.write(json.dumps(rec) + "\n")
+    # --out TEXT / --err TEXT: what the hook itself writes to its standard output / error
+    for t in outs:
+        sys.stdout.write(t)
+    for t in errs:
+        sys.stderr.write(t)
+    sys.stdout.flush()
+    sys.stderr.flush()
     if code < 0:
         # "killed by a signal": no exit code at all (ExitStatus::code() == None on the Rust side)
         fcntl.flock(lockf, fcntl.LOCK_UN)
